@@ -47,6 +47,14 @@ def escape_rules(ctx, rule):
     qspecial = {ch for (st, ch, lc), outs in tt.items() if st == "QuotedString" and ch < 128 and not all(o[0] == "append" for o in outs)}
     unesc_q = sorted(ch for ch in qspecial if wt[(ch, True)][0] == "literal")
     ctx.check(not unesc_q, rule, "specials-escaped:quoted", "quoted: double quote and backslash are never written literally", "special characters written literally (quoted): %s" % unesc_q, wfn.loc())
+    # inside a quoted string only the closing quote leaves the quoted state (an escape, whitespace, `;`, parentheses do not);
+    # an escape in an unquoted token stays in it, and one at the start of a token starts an unquoted token
+    bad_q = sorted({(ch, o[2]) for (st, ch, lc), outs in tt.items() if st == "QuotedString" and ch != 34 for o in outs
+                    if len(o) >= 3 and o[0] not in ("error", "end-of-entry") and o[2] != "QuotedString"})
+    ctx.check(not bad_q, rule, "quoted-state-stable", "only `\"` leaves the QuotedString state", "the quoted state is left by %s" % [(chr(c), n) for c, n in bad_q[:5]], tfn.loc())
+    esc_next = {st: sorted({o[2] for lc in (False, True) for o in tt[(st, 92, lc)] if o[0] in ("escape", "escape-lost")}) for st in ("Initial", "UnquotedString", "QuotedString")}
+    ctx.check(esc_next == {"Initial": ["UnquotedString"], "UnquotedString": ["UnquotedString"], "QuotedString": ["QuotedString"]}, rule, "escape-keeps-state",
+              "an escape continues the token it is in (or starts an unquoted one)", "state after an escape: %s" % esc_next, tfn.loc())
     lost_esc = sorted({st for (st, ch, lc), outs in tt.items() if any(o[0] == "escape-lost" for o in outs)})
     ctx.check(not lost_esc, rule, "escape-appended", "the octet an escape stands for is appended to the token (text and octets)", "the escaped octet is not appended in state(s) %s" % lost_esc, tfn.loc())
     for st in ("Initial", "UnquotedString", "QuotedString"):
@@ -311,6 +319,12 @@ def run(ctx):
     at = [b for b, t in sd.calls() if A.peel(sdr.call_expr(t, b)[2][0] if t["args"] else ("x",))[0] == "const" and A.peel(sdr.call_expr(t, b)[2][0])[2] == "@"]
     rel = [(b, i) for b, i, st in A.aggregates(sd, T + "DomainName")]
     ctx.check(len(abs_calls) == 2 and len(at) == 1 and len(rel) == 1, "C13.5", "serialise_domain:forms", "three renderings: absolute, @, relative", "renderings: %d absolute/relative calls, %d '@', %d relative constructions" % (len(abs_calls), len(at), len(rel)), sd.loc())
+    for b in at:
+        g = [sdc.guarded(b, lambda fc: fc[0] == "call" and fc[1] == T + "DomainName::is_root" and fc[3] is False)[0],
+             sdc.guarded(b, lambda fc: fc[0] == "call" and fc[1] == Z + "Zone::is_authoritative" and fc[3] is True)[0],
+             sdc.guarded(b, A.cmp_fact({"Eq"}, lambda x: A.peel(x) == ("param", 2), lambda x: bool(Call("Zone::get_apex")(x))))[0]]
+        ctx.check(all(g), "C13.5", "serialise_domain:at-condition", "`@` only for the apex of an authoritative zone with a non-root apex (exactly when $ORIGIN is printed)",
+                  "`@` rendering guards (apex not root, authoritative, name == apex) = %s: `@` can be written into a file that has no $ORIGIN" % g, sd.loc(b))
     for b, i in rel:
         g = [sdc.guarded(b, lambda fc: fc[0] == "call" and fc[1] == T + "DomainName::is_root" and fc[3] is False)[0],
              sdc.guarded(b, lambda fc: fc[0] == "call" and fc[1] == Z + "Zone::is_authoritative" and fc[3] is True)[0],
